@@ -198,6 +198,9 @@ func mustNotPanic(t *rapid.T, what string, f func()) {
 // ignoring construction order; equal values hash equally; unequal ones compare unequal.
 func TestC05EqualHash(t *testing.T) {
 	rapid.Check(t, func(t *rapid.T) {
+		if vstat.OverBudget() {
+			return
+		}
 		vstat.Case()
 		v := genVal(t)
 		a := realise(t, v, "a")
@@ -252,6 +255,9 @@ func TestC05EqualHash(t *testing.T) {
 // keyed by canonical text under Set/Get/overwrite sequences.
 func TestC05Maps(t *testing.T) {
 	rapid.Check(t, func(t *rapid.T) {
+		if vstat.OverBudget() {
+			return
+		}
 		vstat.Case()
 		pool := make([]tlx.Val, rapid.IntRange(1, 6).Draw(t, "pool"))
 		for i := range pool {
@@ -318,6 +324,9 @@ func init() { gob.Register(envelope{}) }
 // one stream as a mailbox connection does, wrapped with a clock) comes out Equal.
 func TestC05Gob(t *testing.T) {
 	rapid.Check(t, func(t *rapid.T) {
+		if vstat.OverBudget() {
+			return
+		}
 		vstat.Case()
 		n := rapid.IntRange(1, 4).Draw(t, "n")
 		vals := make([]tlx.Val, n)
@@ -423,6 +432,9 @@ func clockVec(c tla.VClock) string {
 // Inc bumps exactly one component, gob preserves the clock.
 func TestC05VClock(t *testing.T) {
 	rapid.Check(t, func(t *rapid.T) {
+		if vstat.OverBudget() {
+			return
+		}
 		vstat.Case()
 		a, b, c := genClock(t, "a"), genClock(t, "b"), genClock(t, "c")
 		if clockVec(a.Merge(b)) != clockVec(b.Merge(a)) {
@@ -475,6 +487,9 @@ func TestC05VClock(t *testing.T) {
 // (harness parser here; TLC in TestC05StringTLC).
 func TestC05String(t *testing.T) {
 	rapid.Check(t, func(t *rapid.T) {
+		if vstat.OverBudget() {
+			return
+		}
 		vstat.Case()
 		v := genVal(t)
 		tv := realise(t, v, "v")
@@ -499,6 +514,9 @@ func TestC05StringTLC(t *testing.T) {
 	var qs, descr []string
 	seen := map[string]bool{}
 	rapid.Check(t, func(t *rapid.T) {
+		if vstat.OverBudget() {
+			return
+		}
 		vstat.Case()
 		v := genVal(t)
 		tv := realise(t, v, "v")
@@ -533,6 +551,9 @@ func TestC05StringTLC(t *testing.T) {
 // behave (no panic, equivalence).
 func TestC05ZeroValue(t *testing.T) {
 	rapid.Check(t, func(t *rapid.T) {
+		if vstat.OverBudget() {
+			return
+		}
 		vstat.Case()
 		build := func() tla.Value {
 			return tla.Value{}
